@@ -70,7 +70,18 @@ func body(s *simrt.Sim, tier string) {
 	parser := cron.NewParser(cron.Second | cron.Minute | cron.Hour | cron.Dom | cron.Month | cron.Dow | cron.Descriptor)
 	clk := &simclock.SkewClock{}
 	jumps := mode == 2 || mode == 3 && s.Choose(2, "jumps") == 0
-	c := cron.New(cron.WithParser(parser), cron.WithLocation(time.UTC), cron.WithClock(clk))
+	// the Cron's own location: activation instants of cron specs are computed on its wall clock, which
+	// need not be the zone the injected clock reports (offsets of a few seconds make that visible at this time scale)
+	loc := []*time.Location{time.UTC, time.UTC, time.FixedZone("E7", 7), time.FixedZone("W13", -13)}[s.Choose(4, "location")]
+	c := cron.New(cron.WithParser(parser), cron.WithLocation(loc), cron.WithClock(clk))
+	// the activation after t on the Cron's wall clock, reported in the zone the harness keeps its own instants in
+	nextOf := func(e *entry, t time.Time) time.Time {
+		n := e.sched.Next(t.In(loc))
+		if n.IsZero() {
+			return n
+		}
+		return n.In(t.Location())
+	}
 	now := func() time.Time { return clk.Now() }
 	t0 := now()
 	rel := func(t time.Time) string {
@@ -127,6 +138,8 @@ func body(s *simrt.Sim, tier string) {
 		stopInv, stopRet   time.Time
 		stopped            bool
 		stopCtx            context.Context
+		runName            string // started through Run() in a goroutine of this name
+		runReturned        uint64
 		stopRetStamp       uint64
 		startRetStamp      uint64
 	}
@@ -195,7 +208,7 @@ func body(s *simrt.Sim, tier string) {
 			}
 			// --- Entries reports the next and previous activation actually used
 			isEvery := len(e.spec) > 0 && e.spec[0] == '@'
-			isAct := func(x time.Time) bool { return e.sched.Next(x.Add(-time.Nanosecond)).Equal(x) }
+			isAct := func(x time.Time) bool { return nextOf(e, x.Add(-time.Nanosecond)).Equal(x) }
 			if !isEvery {
 				// whatever the scheduler was doing, Prev and Next are values its schedule produced
 				if !se.Prev.IsZero() && !isAct(se.Prev) {
@@ -219,7 +232,7 @@ func body(s *simrt.Sim, tier string) {
 					if se.Prev.After(ret) {
 						s.Fail("entries-prev", fmt.Sprintf("Entries() at %s reports Prev=%s in the future for e%d", rel(ret), rel(se.Prev), e.idx))
 					}
-					if !e.sched.Next(se.Prev).Equal(se.Next) && len(epochs) == 1 {
+					if !nextOf(e, se.Prev).Equal(se.Next) && len(epochs) == 1 {
 						s.Fail("entries-prev", fmt.Sprintf("Entries(): Next=%s is not the activation following Prev=%s for e%d (%q)", rel(se.Next), rel(se.Prev), e.idx, e.spec))
 					}
 				}
@@ -240,8 +253,24 @@ func body(s *simrt.Sim, tier string) {
 					}
 					ep := &epoch{startInv: now()}
 					epochs = append(epochs, ep)
-					s.Logf("Start at %s", rel(ep.startInv))
-					c.Start()
+					if s.Choose(4, "viaRun") == 0 {
+						// the blocking form: Run in a goroutine of the caller's; it returns when the Cron is stopped
+						runName := fmt.Sprintf("cronrun%d", len(epochs))
+						ep.runName = runName
+						s.Logf("Run (in its own goroutine) at %s", rel(ep.startInv))
+						s.GoKit(runName, func() {
+							c.Run()
+							ep.runReturned = s.Stamp()
+						})
+						// "started" = the scheduler has computed its entries and waits for its first event
+						if !s.WaitUntil("run.started", time.Minute, func() bool { return s.PredAtRest(runName) }) {
+							s.Fail("run-not-started", "Run did not reach its event loop\n"+s.Dump())
+							return
+						}
+					} else {
+						s.Logf("Start at %s", rel(ep.startInv))
+						c.Start()
+					}
 					ep.startRet, ep.startRetStamp = now(), s.Stamp()
 				case opStop:
 					ep := running()
@@ -356,6 +385,12 @@ func body(s *simrt.Sim, tier string) {
 		}
 	}
 	_ = finalCtx
+	for _, ep := range epochs {
+		if ep.runName != "" && ep.stopped && !s.Join(time.Minute, ep.runName) {
+			s.Fail("run-not-returned-after-stop", "Stop returned but Run, which was running the scheduler, did not\n"+s.Dump())
+			return
+		}
+	}
 	// after Stop: advancing the clock starts nothing
 	nBefore := 0
 	for _, e := range entries {
@@ -410,14 +445,14 @@ func body(s *simrt.Sim, tier string) {
 		var acts []time.Time // certain activations (exact mode): chain from the latest possible origin equals chain from earliest when from==fromMax
 		si := 0
 		for _, w := range wins {
-			n := e.sched.Next(w.from)
-			for ; !n.IsZero() && n.Before(w.to); n = e.sched.Next(n) {
+			n := nextOf(e, w.from)
+			for ; !n.IsZero() && n.Before(w.to); n = nextOf(e, n) {
 				acts = append(acts, n)
 			}
 		}
 		// never early / never twice: greedy matching of starts (sorted by time) to the minimal chain
 		for _, w := range wins {
-			n := e.sched.Next(w.from)
+			n := nextOf(e, w.from)
 			for si < len(e.starts) {
 				st := e.starts[si]
 				if !st.at.Before(w.to.Add(maxInjected+totalJump+time.Second)) && w.to != endTime {
@@ -427,7 +462,7 @@ func body(s *simrt.Sim, tier string) {
 					s.Fail("early-or-twice", fmt.Sprintf("e%d (%q, added at %s): start #%d at %s precedes the earliest activation it could belong to (%s); starts so far %v", e.idx, e.spec, rel(e.addInv), si, rel(st.at), rel(n), relAll(e.starts, t0)))
 					break
 				}
-				n = e.sched.Next(n)
+				n = nextOf(e, n)
 				si++
 			}
 		}
